@@ -27,7 +27,7 @@ Definition C17_full_statement : Prop :=
     /\ Forall (eq (full_name e)) (topic_entities cs)
     (* the schemas file holds Keys, Data, State, EventType, Event with the documented shapes *)
     /\ (exists fl, msgs_of_file 0 cs =
-          [keys_msg e; data_msg e; state_msg e fl; event_type_msg e; event_msg e] ++ map schema_msg (e_schemas e)).
+          [keys_msg e; data_msg e; state_msg e fl; event_type_msg e; event_msg e] ++ flat_map schema_msgs (e_schemas e)).
 
 Theorem C17_full : C17_full_statement.
 Proof.
@@ -112,7 +112,7 @@ Print Assumptions C17_same_annotation.
 Theorem C17_main_file : forall e fl,
   msgs_of_file 0 (expand_with e fl) =
     [keys_msg e; data_msg e; state_msg e fl; event_type_msg e; event_msg e]
-    ++ map schema_msg (e_schemas e).
+    ++ flat_map schema_msgs (e_schemas e).
 Proof. exact main_file_messages. Qed.
 Print Assumptions C17_main_file.
 
@@ -385,10 +385,12 @@ Definition C17_sample : entity :=
                       mkM (bs "Download") 1 (bs "dl") [] None]]
       [mkS [] [mkU (bs "name") (KScalar 9 (bs "string")) false false]]
       (Some (mkQ true [bs "ACTIVE"]))
-      [(bs "Address", [mkU (bs "street") (KScalar 9 (bs "string")) false false])].
+      [SObject (bs "Address") [mkU (bs "street") (KScalar 9 (bs "string")) false false];
+       SEnum (bs "Kind") [bs "A"; bs "B"];
+       SOneof (bs "Choice") [mkU (bs "a") (KScalar 9 (bs "string")) false false]].
 
 Example C17_example :
-  (exists cs, compile C17_sample = Ok cs /\ length cs = 22%nat)
+  (exists cs, compile C17_sample = Ok cs /\ length cs = 24%nat)
   /\ nth 0 (query_paths C17_sample) [] = bs "/foo/v1/foo_s/q/{foo_id}/{account_id}"
   /\ nth 2 (query_paths C17_sample) [] = bs "/foo/v1/foo_s/q/{foo_id}/{account_id}/events"
   /\ status_values (status_prefix C17_sample) (e_status C17_sample)
